@@ -1,7 +1,7 @@
 /-
   C05 — A modal screen blocks its caller and shields everything beneath it.
 
-  Property theorems only; proofs in `Simpleline/Lemmas/Shape{Modal,Frames,Window,Shield,Intact}.lean`,
+  Property theorems only; proofs in `Simpleline/Lemmas/Shape{Modal,Frames,Window,Shield,ShieldFix,Intact}.lean`,
   vocabulary in `Simpleline/Spec/ShapeSpec.lean`.
 
   Reading guide.  `push_screen_modal(scr, args)` is the instruction `pushModal scr args`: it appends the
@@ -21,10 +21,19 @@
     user actions, not over raw loop calls; a raw call creates or removes a level that belongs to no
     screen).  Everything else — signals, `process_signals`, blocking input, all scheduler calls — is allowed.
   * `NoErr c` (history): no `ExceptionSignal` was enqueued, i.e. no exception escaped a callback.
-    Needed: finding **K3** (`C05_shield_needs_NoErr`).
+    Needed: finding **K3** (`C05_levels_match_modals_needs_NoErr`, `C05_shield_needs_NoErr`): an exception
+    raised by the `closed()` callback of a modal screen skips `close_loop`.  (The other variant of K3 —
+    the `RenderUnexpectedError` raised by `close_screen` *after* it had popped a modal screen that did
+    not ask to be closed — no longer exists: `closed_from` is checked before the pop,
+    `C04_refused_close_keeps_stack`.)
+    **Since that fix `NoErr` is needed only for `C05_levels_match_modals`** (the one clause that does not
+    assume `ClosedSilent`): under `ClosedSilent P` and `WFQuietDrain c` no exception can separate the pop
+    of a modal entry from the `close_loop` of its level, and the other clauses hold without `NoErr` —
+    `C05_quiescent_after_fix`, `C05_shield_after_fix`, `C05_close_only_for_modal_after_fix`,
+    `C05_intact_after_fix`.  The theorems with `NoErr` are kept as they were (they are corollaries).
   * `WFClose c`, `NoForceQuit c` (history): finding K1, as in C03.
-  * for the shield clause, `ClosedSilent P` (static: `closed()` callbacks perform no API call — they run
-    between the pop of the entry and `close_loop`) and `WFQuietDrain c` (history: the drain of
+  * for the shield clause, `ClosedSilent P` (static: `closed()` callbacks do nothing — no API call, no
+    exception: they run between the pop of the entry and `close_loop`) and `WFQuietDrain c` (history: the drain of
     `close_loop` dispatched nothing).  Needed: finding **K2** (`C05_shield_needs_quiet`).  The call-time
     form `WFQuiet c` (no signal pending when `close_loop` was *called*) is not sufficient in this model,
     where the reader thread may deliver a line between the call and the drain (`Reach.deliver`).
@@ -138,6 +147,69 @@ theorem C05_intact (h0 : Started c0) (hi : InitScreenOnly c0) (hP : ScreenOnly P
     c3.code = .restoreRun :: .modalRet ⟨c.A.nextEid, scr, args, true⟩ :: K0 ∧ c3.A.stack = c2.A.stack :=
   intact' h0 hi hP hC hr hc hs1 hs2 hr2 ht hret hn hq hw hd hf hafter
 
+/-! ### the same without `NoErr`
+
+Since `close_screen` checks `closed_from` before it pops the top screen, a refused close request
+(`RenderUnexpectedError`) leaves the stack alone (`C04_refused_close_keeps_stack`), and in a program
+whose `closed()` callbacks are silent and whose `close_loop` drains dispatch nothing, the straight-line
+windows between the pop of a modal entry and the pop of its level contain nothing that can raise.  An
+exception raised anywhere else — in any callback, in any handler, by the scheduler itself — finds
+nothing pending.  So the shield needs no hypothesis about exceptions any more. -/
+
+/-- `C05_close_only_for_modal` without `NoErr`. -/
+theorem C05_close_only_for_modal_after_fix (h0 : Started c0) (hi : InitScreenOnly c0) (hP : ScreenOnly P)
+    (hC : ClosedSilent P) (hr : Reach P c0 c) (ht : Trans P c c') (hq : WFQuietDrain c)
+    {b : Bool} {n : Nat} (hx : Tr.closeReq b n ∈ newTr c c') :
+    modalCount c.A.stack + 2 = c.L.levels.length :=
+  close_only_for_modal_fix h0 hi hP hC hr ht hq hx
+
+/-- `C05_quiescent` without `NoErr`: outside the open / close windows nothing is pending and every
+nested level has its modal entry on the stack — whatever exceptions were raised and caught so far. -/
+theorem C05_quiescent_after_fix (h0 : Started c0) (hi : InitScreenOnly c0) (hP : ScreenOnly P) (hC : ClosedSilent P)
+    (hr : Reach P c0 c) (hq : WFQuietDrain c) {h : Instr} {rest : List Instr}
+    (hc : c.code = h :: rest) (hh : h.isWindowHead = false) :
+    c.Over ∨ (pendOpens c.code = 0 ∧ pendCloses c.code = 0 ∧ modalCount c.A.stack + 1 = c.L.levels.length) :=
+  quiescent_of_head_fix h0 hi hP hC hr hq hc hh
+
+/-- **Shield, without `NoErr`.** In a screen-level program whose `closed()` callbacks are silent,
+whenever an entry `x` is drawn or refreshed in a history whose `close_loop` drains dispatched nothing,
+nothing is pending and the number of modal entries on the stack is the number of nested levels; a drawn
+entry is, by identity, the top of the stack: no screen beneath a modal screen is drawn — even after
+exceptions escaped from callbacks or close requests were refused. -/
+theorem C05_shield_after_fix (h0 : Started c0) (hi : InitScreenOnly c0) (hP : ScreenOnly P) (hC : ClosedSilent P)
+    (hr : Reach P c0 c) (ht : Trans P c c') (hq : WFQuietDrain c) {x : Entry}
+    (hx : Tr.show x ∈ newTr c c' ∨ Tr.refresh x ∈ newTr c c') :
+    pendOpens c.code = 0 ∧ pendCloses c.code = 0 ∧ modalCount c.A.stack + 1 = c.L.levels.length ∧
+    (Tr.show x ∈ newTr c c' → ∃ l, c.A.stack.getLast? = some l ∧ l.eid = x.eid) :=
+  shield_fix h0 hi hP hC hr ht hq hx
+
+/-- `C05_intact` without `NoErr`. -/
+theorem C05_intact_after_fix (h0 : Started c0) (hi : InitScreenOnly c0) (hP : ScreenOnly P) (hC : ClosedSilent P)
+    (hr : Reach P c0 c) {scr : Nat} {args : Option Nat} {K0 : List Instr}
+    (hc : c.code = .pushModal scr args :: K0) (hs1 : step P c = .ok c') (hs2 : step P c' = .ok c1)
+    (hr2 : Reach P c1 c2) (ht : Trans P c2 c3) (hret : Tr.loopReturn c.L.queues.length ∈ newTr c2 c3)
+    (hq : WFQuietDrain c3) (hw : WFClose c3) (hd : WFDrain c3) (hf : NoForceQuit c3)
+    (hafter : NoStackOpAfterClose c.L.queues.length (newTr c1 c2)) :
+    (∃ ins, c2.A.stack = ins ++ c.A.stack ∧ ∀ y ∈ ins, y.modal = false) ∧
+    c2.code = .mainCheck c.L.queues.length :: .modalRet ⟨c.A.nextEid, scr, args, true⟩ :: K0 ∧
+    c3.code = .restoreRun :: .modalRet ⟨c.A.nextEid, scr, args, true⟩ :: K0 ∧ c3.A.stack = c2.A.stack :=
+  intact'_fix h0 hi hP hC hr hc hs1 hs2 hr2 ht hret hq hw hd hf hafter
+
+/-- Non-vacuity of `C05_shield_after_fix` where `C05_shield` does not apply: `ShapeEx.progRefused` is the
+program that used to break the shield (a `CloseScreenSignal` of screen 2 dispatched while the modal
+screen 1 is on top).  The request is now refused with screen 1 still on the stack; the application
+handles the `ExceptionSignal` (so `NoErr` fails from then on), and the modal screen is drawn again
+inside its nested loop — two levels, stack `[entry 0, entry 1]`. -/
+example :
+    ∃ (P : Prog) (c0 c c' : Cfg) (x : Entry), Started c0 ∧ InitScreenOnly c0 ∧ ScreenOnly P ∧ ClosedSilent P ∧
+      Reach P c0 c ∧ Trans P c c' ∧ ¬ NoErr c ∧ WFQuietDrain c ∧ WFClose c ∧ Tr.show x ∈ newTr c c' ∧
+      c.L.levels.length = 2 ∧ c.A.stack = [ShapeEx.entry0, x] := by
+  obtain ⟨c, c', hr, ht, hf⟩ := testTrans_spec ShapeEx.refused_check
+  simp only [Bool.and_eq_true, decide_eq_true_eq, Bool.not_eq_true', decide_eq_false_iff_not] at hf
+  obtain ⟨⟨⟨⟨⟨h1, h2⟩, h3⟩, h4⟩, h5⟩, h6⟩ := hf
+  exact ⟨_, _, c, c', ShapeEx.entry1, ShapeEx.startedSX, ShapeEx.initSX, ShapeEx.progRefused_screenOnly,
+    ShapeEx.progRefused_closedSilent, hr, ht, h2, h3, h4, h1, h5, h6⟩
+
 /-! ### the hypotheses are needed, and satisfiable -/
 
 /-- **K2.** Without the quiet hypotheses the shield fails: in `ShapeEx.progK2` the modal screen asks for
@@ -171,22 +243,48 @@ theorem C05_shield_needs_drain_quiet :
   exact ⟨_, _, c, c', ShapeEx.entry0, ShapeEx.startedRace, ShapeEx.initRace, ShapeEx.progRace_screenOnly,
     ShapeEx.progRace_closedSilent, hr, ht, h2, h4, h5, h3, h6, h1, by rw [h7, h8]; decide⟩
 
-/-- **K3** (new finding). Without `NoErr` the shield — and the correspondence of levels and modal
-entries — fails even in a quiet, well-formed history: `close_screen` pops the top screen *before* it
-checks `closed_from`; when the popped screen is modal and the check raises `RenderUnexpectedError`
-(a `CloseScreenSignal` of another screen was dispatched while the modal screen was on top), `close_loop`
-is never called: the nested loop stays open without its screen, and the parent is refreshed and drawn
-inside it (`ShapeEx.progK3`, with an application handler for `ExceptionSignal`; an exception raised by
-the modal screen's `closed()` has the same effect).  Kernel-checked. -/
+/-- **K3.** Without `NoErr` the correspondence of levels and modal entries (`C05_levels_match_modals`)
+fails: `close_screen` pops the top screen and calls its `closed()` callback; when the popped screen is
+modal and `closed()` raises an ordinary exception, the rest of `close_screen` — `close_loop` — is
+skipped: the nested loop stays open without its screen.  In `ShapeEx.progK3` (with an application
+handler for `ExceptionSignal`, so that the application survives) the modal screen 1 is closed by its
+own `CloseScreenSignal` and its `closed()` raises; afterwards, with nothing pending and the run not
+over, two levels are open for a stack without modal entry.  Kernel-checked. -/
+theorem C05_levels_match_modals_needs_NoErr :
+    ∃ (P : Prog) (c0 c : Cfg), Started c0 ∧ InitScreenOnly c0 ∧ ScreenOnly P ∧ Reach P c0 c ∧ ¬ NoErr c ∧
+      ¬ c.Over ∧ c.L.forceQuit = false ∧
+      modalCount c.A.stack + 1 + pendCloses c.code ≠ c.L.levels.length + pendOpens c.code := by
+  obtain ⟨c, c', hr, _, hf⟩ := testTrans_spec ShapeEx.k3_check
+  simp only [Bool.and_eq_true, decide_eq_true_eq, Bool.not_eq_true', decide_eq_false_iff_not] at hf
+  obtain ⟨⟨⟨⟨⟨⟨⟨⟨⟨⟨⟨_, h2⟩, _⟩, _⟩, _⟩, _⟩, h7⟩, h8⟩, h9⟩, h10⟩, h11⟩, h12⟩ := hf
+  exact ⟨_, _, c, ShapeEx.startedSX, ShapeEx.initSX, ShapeEx.progK3_screenOnly, hr, h2, h11, h12,
+    by rw [h7, h8, h9, h10]; decide⟩
+
+/-- **K3** for the shield. Without `NoErr` the shield fails even in a quiet, well-formed history, for a
+program whose `closed()` callbacks call no library API (`ClosedNoApi`) but may raise: in
+`ShapeEx.progK3` the exception raised by the modal screen's `closed()` skips `close_loop`, and the parent
+(entry 0) is refreshed and drawn inside the modal screen's nested loop, which stays open without its
+screen.  Kernel-checked.
+
+The witness is *not* `ClosedSilent` (a `closed()` that raises is not silent), so this statement is weaker
+than it was before `close_screen` was fixed (it had `ClosedSilent P` where it now has `ClosedNoApi P`):
+then the witness was the `RenderUnexpectedError` raised by `close_screen` itself *after* popping a modal
+screen that had not asked to be closed (a `CloseScreenSignal` of another screen dispatched while the
+modal screen was on top), in a `ClosedSilent` program.  With `closed_from` checked before the pop that
+run leaves the modal entry in place (`C04_refused_close_keeps_stack`, and the example after
+`C05_shield_after_fix`), and the old statement is false: under `ClosedSilent` the shield holds without
+`NoErr` (`C05_shield_after_fix`).  What the theorem still shows: in `C05_shield_after_fix` the hypothesis
+`ClosedSilent` cannot be weakened to "`closed()` calls no library API": a `closed()` that merely raises
+breaks the shield. -/
 theorem C05_shield_needs_NoErr :
-    ∃ (P : Prog) (c0 c c' : Cfg) (x : Entry), Started c0 ∧ InitScreenOnly c0 ∧ ScreenOnly P ∧ ClosedSilent P ∧
+    ∃ (P : Prog) (c0 c c' : Cfg) (x : Entry), Started c0 ∧ InitScreenOnly c0 ∧ ScreenOnly P ∧ ClosedNoApi P ∧
       Reach P c0 c ∧ Trans P c c' ∧ ¬ NoErr c ∧ WFClose c ∧ WFDrain c ∧ WFQuiet c ∧ WFQuietDrain c ∧
       Tr.show x ∈ newTr c c' ∧ modalCount c.A.stack + 1 ≠ c.L.levels.length := by
   obtain ⟨c, c', hr, ht, hf⟩ := testTrans_spec ShapeEx.k3_check
   simp only [Bool.and_eq_true, decide_eq_true_eq, Bool.not_eq_true', decide_eq_false_iff_not] at hf
-  obtain ⟨⟨⟨⟨⟨⟨⟨h1, h2⟩, h3⟩, h4⟩, h5⟩, h6⟩, h7⟩, h8⟩ := hf
+  obtain ⟨⟨⟨⟨⟨⟨⟨⟨⟨⟨⟨h1, h2⟩, h3⟩, h4⟩, h5⟩, h6⟩, h7⟩, h8⟩, _⟩, _⟩, _⟩, _⟩ := hf
   exact ⟨_, _, c, c', ShapeEx.entry0, ShapeEx.startedSX, ShapeEx.initSX, ShapeEx.progK3_screenOnly,
-    ShapeEx.progK3_closedSilent, hr, ht, h2, h3, h4, h5, h6, h1, by rw [h7, h8]; decide⟩
+    ShapeEx.progK3_closedNoApi, hr, ht, h2, h3, h4, h5, h6, h1, by rw [h7, h8]; decide⟩
 
 /-- Non-vacuity of `C05_shield`: in `ShapeEx.progModal` the modal screen (entry 1) is drawn inside its
 nested loop — two levels, stack `[entry 0, entry 1]` — with all hypotheses satisfied. -/
